@@ -2,6 +2,7 @@ use std::io::{ErrorKind, Read};
 
 use crate::interpreter::io::Input;
 use crate::interpreter::is_cr_lf;
+use crate::interpreter::string_utils::to_ascii_string;
 
 pub struct ReadInputSource<T: Read> {
     read: T,
@@ -67,7 +68,8 @@ impl<T: Read> ReadInputSource<T> {
                 found = true;
             }
         }
-        Ok(String::from_utf8(buf).unwrap())
+        // one character per byte, like GET and MKD$: the input need not be UTF-8
+        Ok(to_ascii_string(&buf))
     }
 
     fn read_until<F>(&mut self, predicate: F) -> std::io::Result<String>
@@ -93,7 +95,8 @@ impl<T: Read> ReadInputSource<T> {
                 }
             }
         }
-        Ok(String::from_utf8(buf).unwrap())
+        // one character per byte, like GET and MKD$: the input need not be UTF-8
+        Ok(to_ascii_string(&buf))
     }
 }
 
